@@ -17,7 +17,7 @@ LEVEL = {"partial": ["floating-point rounding: results are compared to the exact
 ASSUMPTIONS = ["np.mean/median/var/std/quantile/sum/amin/amax/all/any as documented; statistics.mode returns the first encountered mode"]
 RULE = ("16 helpers x {float, int, bool, date, timedelta} columns drawn from exactly representable pools with NaN/NaT, x drop_na in {default, True, False}, "
         "ddof in {0,1,2}, index in -3..3, q in {0, 1/4, 1/2, 9/10, 1}; vector form on vectors of 0..8 elements and group-wise form on frames "
-        "of 0..12 rows with 1..4 groups incl. singleton and all-missing groups (USE_NUMBA off); non-trivial = >=2 elements with a tie or a "
+        "of 0..12 rows with 1..4 groups incl. singleton and all-missing groups (USE_NUMBA off, and on for the Numba-eligible dtypes); non-trivial = >=2 elements with a tie or a "
         "missing value (vector) / >=2 groups (group-wise); thorough adds all groups of <=4 values over a 4-value pool")
 
 HELPERS = ["all", "any", "count", "count_unique", "first", "last", "nth", "min", "max", "mode", "mean", "median", "quantile", "std", "var", "sum"]
@@ -168,6 +168,9 @@ def canon_result(x):
     return repr(x)
 
 
+NUMBA_KINDS = ("float", "int", "bool", "date", "datetime")
+
+
 def impl(case, use_numba=False):
     import dataiter as di
     helper, kind = case["helper"], case["kind"]
@@ -193,6 +196,16 @@ def impl(case, use_numba=False):
                 res["out"] = [canon_result(x) for x in stat.y]
                 res["groups"] = [int(str(x)[1:]) if case.get("gstr") else int(x) for x in stat.g]
                 res["dtype"] = str(stat.y.dtype)
+                # the same call as a user with Numba installed runs it (acceleration is ON by default): the documented
+                # statistic either way.  Left out: the helpers whose kernels depend on the order of first compilation in one
+                # process (a recorded C08 finding) — they are compared in fresh processes by the C08 check
+                if not use_numba and kind in NUMBA_KINDS and helper not in ("first", "last", "nth", "mode") and not case.get("before"):
+                    try:
+                        with patch("dataiter.USE_NUMBA", True):
+                            stat2 = df.group_by("g").aggregate(y=f("x", *pos, **kw))
+                        res["out_numba"] = [canon_result(x) for x in stat2.y]
+                    except Exception as e:
+                        res["err_numba"] = f"{type(e).__name__}: {e}"
     except Exception as e:
         res["err"] = f"{type(e).__name__}: {e}"
     return res
@@ -375,6 +388,16 @@ def judge(ctx, case, obs, mouts):
                     if not agrees(got, exp):
                         ctx.violation("oracle", f"{helper}:group:wrong", f"group {k}: di.{helper} gave {got!r}, textbook value {exp!r}", case, obs, repr(exp))
                         break
+                dn_ = drop_default(helper) if args.get("drop_na") is None else args.get("drop_na")
+                if "err_numba" in obs:
+                    ctx.violation("oracle", f"{helper}:group:numba-raises", f"di.{helper} (group form, {kind}) raised with USE_NUMBA on: {obs['err_numba']}", case, obs)
+                elif "out_numba" in obs and not (helper == "median" and has_na and not dn_):
+                    ctx.count("group:numba-on")
+                    for k, g, got in zip(ks, gs, obs["out_numba"]):
+                        exp = reference(helper, args, kind, g)
+                        if len(obs["out_numba"]) != len(ks) or not agrees(got, exp):
+                            ctx.violation("oracle", f"{helper}:group:wrong-with-numba", f"group {k}: di.{helper} with USE_NUMBA on gave {got!r}, textbook value {exp!r}", case, obs, repr(exp))
+                            break
     if mouts is not None and "err" not in obs and not unspecified:
         m = mouts[0]
         if isinstance(m, dict) and "err" in m:
